@@ -15,6 +15,7 @@ z3fn = SPECS.z3fn
 getter = SPECS.getter
 literal = SPECS.literal
 ghost_after = SPECS.ghost_after
+ghost_before = SPECS.ghost_before
 
 
 def lemma(name, text, props, note=''):
